@@ -399,6 +399,14 @@ fn long_candle(stream: u8, t: u32, prev_close: f64) -> Candle {
 	if stream == 0 {
 		return checks::indcheck::volatile_candle(t, prev_close);
 	}
+	if stream == 2 {
+		// an unbroken rally: every candle a new high, for as long as the stream lasts (counters of new
+		// extremes run beyond 255)
+		let c = 100.0 + 0.5 * t as f64 + 0.125 * (t % 3) as f64;
+		let o = prev_close;
+		type V = yata::core::ValueType;
+		return Candle { open: o as V, high: (o.max(c) + 0.25) as V, low: (o.min(c) - 0.125) as V, close: c as V, volume: (1 + (t * 5) % 7) as V };
+	}
 	let tri = |t: u32, p: u32| -> f64 {
 		let x = (t % p) as f64 / p as f64;
 		if x < 0.5 { 4.0 * x - 1.0 } else { 3.0 - 4.0 * x }
@@ -418,7 +426,7 @@ impl System for ILongSnapSys {
 	fn inits(&self) -> Vec<(ILSt, String)> {
 		let mut v = vec![];
 		for (i, c) in self.cfgs.iter().enumerate() {
-			for stream in [0u8, 1] {
+			for stream in [0u8, 1, 2] {
 				let c0 = long_candle(stream, 0, if stream == 0 { 10.0 } else { 100.0 });
 				if let Ok(Ok(mut a)) = catch(|| c.init(&c0)) {
 					let mut prev_close = c0.close as f64;
@@ -431,7 +439,7 @@ impl System for ILongSnapSys {
 						(a, prev_close)
 					});
 					if let Ok((a, prev_close)) = fed {
-						v.push((ILSt { a, b: None, cfg: i, stream, t: 1 + self.pre, age: 0, prev_close }, format!("{} {} stream={} after {} candles", c.const_name(), c.to_json().unwrap_or_default(), if stream == 0 { "volatile" } else { "swelling-triangle-wave" }, self.pre)));
+						v.push((ILSt { a, b: None, cfg: i, stream, t: 1 + self.pre, age: 0, prev_close }, format!("{} {} stream={} after {} candles", c.const_name(), c.to_json().unwrap_or_default(), match stream { 0 => "volatile", 1 => "swelling-triangle-wave", _ => "unbroken-rally" }, self.pre)));
 					}
 				}
 			}
@@ -709,7 +717,7 @@ fn main() {
 		for b in &base {
 			for (key, val) in json_map(&b.to_json().unwrap()) {
 				if val.is_f64() {
-					for t in ["0.01", "0.03", "0.07", "0.09", "0.13", "0.3", "0.45", "0.9", "2.5"] {
+					for t in ["0.0002", "0.01", "0.03", "0.07", "0.09", "0.13", "0.3", "0.45", "0.9", "2.5"] {
 						let mut x = b.boxed_clone();
 						if x.set(&key, t.to_string()).is_ok() && x.validate() {
 							cfgs.push(x);
